@@ -1,6 +1,6 @@
 SPECIFICATION GenSpec
 CONSTANTS
-  Objs = {1, 2, 3, 4, 5, 6}
+  Objs = {1, 2, 3, 4, 5, 6, 7, 8}
   WCs = {FALSE, TRUE}
   Batches = {1, 2}
   MaxEpoch = 3
